@@ -212,6 +212,9 @@ func (p *peer) Dial(addr string, protoFunc ...ProtoFunc) (Session, *Status) {
 		sess.socket.SetID(sess.LocalAddr().String())
 		if stat := p.pluginContainer.postDial(sess, false); !stat.OK() {
 			conn.Close()
+			// a hook may have registered the session under an id (SetID) before
+			// the dial was rejected: it must not stay listed
+			p.sessHub.deleteSession(sess.ID(), sess)
 			return stat.Cause()
 		}
 		return nil
